@@ -42,6 +42,9 @@ pub struct Knobs {
     /// keep the real handle_changes loop attached to rx_changes (ingest tier)
     pub real_ingest: bool,
     pub api_token: Option<String>,
+    /// keep the production broadcast loop attached to rx_bcast (wire tier): the node itself
+    /// picks the targets and transmits over its real QUIC transport
+    pub real_bcast: bool,
 }
 
 impl Default for Knobs {
@@ -54,6 +57,7 @@ impl Default for Knobs {
             apply_queue_timeout: 3_600_000,
             real_ingest: false,
             api_token: None,
+            real_bcast: false,
         }
     }
 }
@@ -68,6 +72,7 @@ pub struct Node {
     pub subs_cache: klukai_agent::api::public::pubsub::SharedMatcherBroadcastCache,
     pub updates_cache: klukai_agent::api::public::update::SharedUpdateBroadcastCache,
     pub tripwire: Tripwire,
+    pub transport: klukai_agent::transport::Transport,
     rx_bcast: CorroReceiver<BroadcastInput>,
     rx_apply: CorroReceiver<(ActorId, CrsqlDbVersion)>,
     rx_clear: CorroReceiver<(ActorId, RangeInclusive<CrsqlDbVersion>)>,
@@ -182,7 +187,12 @@ impl Node {
         let (d_bcast_tx, d_bcast_rx) = bounded(4, "dummy_bcast");
         let (d_apply_tx, d_apply_rx) = bounded(4, "dummy_apply");
         let (d_clear_tx, d_clear_rx) = bounded(4, "dummy_clear");
-        let rx_bcast = std::mem::replace(&mut opts.rx_bcast, d_bcast_rx);
+        let rx_bcast = if knobs.real_bcast {
+            d_bcast_rx
+        } else {
+            std::mem::replace(&mut opts.rx_bcast, d_bcast_rx)
+        };
+        let transport = opts.transport.clone();
         let rx_apply = std::mem::replace(&mut opts.rx_apply, d_apply_rx);
         let rx_clear = std::mem::replace(&mut opts.rx_clear_buf, d_clear_rx);
         let (rx_changes, d_changes_tx) = if knobs.real_ingest {
@@ -209,6 +219,7 @@ impl Node {
             subs_cache,
             updates_cache,
             tripwire: tripwire_clone,
+            transport,
             rx_bcast,
             rx_apply,
             rx_clear,
@@ -419,6 +430,17 @@ impl Node {
         }
         drop(tx_need);
         Ok(ServeSession { h, rx_msg })
+    }
+
+    /// What the production inbound handlers queued for ingestion (the simulator owns the queue).
+    pub fn drain_changes(&mut self) -> Vec<(ChangeV1, ChangeSource)> {
+        let mut out = vec![];
+        if let Some(rx) = self.rx_changes.as_mut() {
+            while let Ok(x) = rx.try_recv() {
+                out.push(x);
+            }
+        }
+        out
     }
 
     pub fn offer_sender(&self) -> CorroSender<(ChangeV1, ChangeSource)> {
